@@ -570,6 +570,18 @@ let save_text_len (lines : char list list list) : int =
   List.fold_left (fun acc l -> match l with
       | pt :: r -> acc + List.length (render_line_file pt r) + 1
       | [] -> acc) 0 lines
+(* the call sequence Model/FileSave.v's save_new prescribes, rendered like the harness renders the strace log *)
+let run_savetrace new_l =
+  let nl = dec_rules new_l in
+  let bytes = List.concat_map (fun l -> match l with pt :: r -> render_line_file pt r @ ['\n'] | [] -> []) nl in
+  let tmp = explode "tmp" and path = explode "path" in
+  let name p = implode p in
+  let ops = List.filter_map (fun o -> match o with
+      | Create p -> Some ("C:" ^ name p)
+      | Append (p, bs) -> if bs = [] then None else Some (Printf.sprintf "W:%s:%d" (name p) (List.length bs))
+      | Rename (p, q) -> Some (Printf.sprintf "R:%s:%s" (name p) (name q))
+      | Remove p -> Some ("U:" ^ name p)) (save_new tmp path bytes) in
+  String.concat "|" ops
 let run_savecrash old_l new_l limit =
   let nl = dec_rules new_l in
   let ok = int_of_string limit >= save_text_len nl in
@@ -1267,6 +1279,7 @@ let run_case (line : string) (toks : string list) : string =
   (* a fault / crash injected at a system-call boundary: which of the two complete policies remains depends on the
      call sequence of the adapter, which the model does not predict: "~" = not compared, judged by the predicate only *)
   | ["savesys"; _; _; _; _; _] -> "~"
+  | ["savetrace"; _; n] -> run_savetrace n
   | "stress" :: _ -> "ok"   (* serial oracle: every concurrent decision is a serial one, all threads finish *)
   | [("csv" | "esc" | "rmc" | "csvf" | "ini" | "mdl" | "totext") as kind; t] -> run_txt kind t
   | ["csvx"; t; _] -> run_txt "csv" t
